@@ -78,6 +78,102 @@ type world struct {
 	hist  core.CellHistory // Val: *slot
 	ws    []*awaiter
 	gates []chan struct{}
+	peeks []*peek
+}
+
+// peek is one GetPromise call on the container.
+type peek struct {
+	inv, ret int
+	s        *slot // the slot the returned promise was identified with (root)
+	ch       <-chan struct{}
+}
+
+func differs(a, b *slot) bool {
+	if a.nilP && b.nilP {
+		return false
+	}
+	return a.root() != b.root()
+}
+
+// peeker calls GetPromise at seeded moments: the promise it returns is one the
+// container held during the call, and the channel is closed once a later call
+// has put a different promise in the container.
+func (w *world) peeker(n int) {
+	c := w.c
+	for i := 0; i < n; i++ {
+		w.gate()
+		pk := &peek{inv: c.Tick()}
+		prom, ch := w.pc.GetPromise()
+		pk.ret = c.Tick()
+		pk.ch = ch
+		c.Sub()
+		c.S.Count("probe:getpromise")
+		if ch == nil {
+			c.Fail("C11.G2.replaced-channel-not-closed", "GetPromise returned a nil replacement channel")
+			return
+		}
+		var unknownRes *result
+		if pp, ok := prom.(*promise.Promise[int]); ok && pp != nil {
+			known := false
+			for _, wr := range w.hist.Writes {
+				if sl := wr.Val.(*slot); sl.root().p == pp {
+					known = true
+				}
+			}
+			if !known {
+				// a promise the container made itself (SetResult): it is resolved
+				if pp.SetResult(-12345, nil) {
+					c.Fail("C11.G1.getpromise-not-current", "GetPromise returned an unresolved promise that was never put in the container")
+					return
+				}
+				v, err := pp.Await(context.Background())
+				unknownRes = &result{v, err}
+			}
+		} else if prom != nil && !ok {
+			c.Fail("C11.G1.getpromise-not-current", "GetPromise returned a promise of an unexpected type %T", prom)
+			return
+		}
+		for _, wr := range w.hist.Writes {
+			sl := wr.Val.(*slot)
+			var match bool
+			switch {
+			case prom == nil:
+				match = sl.nilP
+			case unknownRes != nil:
+				match = sl.p == nil && !sl.nilP && sl.alias == nil && sl.res != nil && sl.res.v == unknownRes.v && sl.res.err == unknownRes.err
+			default:
+				match = sl.root().p != nil && sl.root().p == prom.(*promise.Promise[int])
+			}
+			if match && w.hist.Possible(wr, pk.inv, pk.ret, func(o *core.Write) bool { return differs(o.Val.(*slot), sl) }) {
+				pk.s = sl
+				break
+			}
+		}
+		if pk.s == nil {
+			c.Fail("C11.G1.getpromise-not-current", "GetPromise returned a promise (nil=%v, container-made=%v) that the container did not hold at any moment of the call", prom == nil, unknownRes != nil)
+			return
+		}
+		w.peeks = append(w.peeks, pk)
+	}
+}
+
+// checkPeeks: at the end, every channel handed out by GetPromise before a call that replaced the promise is closed.
+func (w *world) checkPeeks() {
+	c := w.c
+	for _, pk := range w.peeks {
+		for _, o := range w.hist.Writes {
+			if o.Inv > pk.ret && o.Ret != 0 && differs(o.Val.(*slot), pk.s) {
+				select {
+				case <-pk.ch:
+				default:
+					c.Fail("C11.G2.replaced-channel-not-closed", "the channel returned by GetPromise is still open although a later call replaced the container's promise")
+					return
+				}
+				c.S.Count("probe:getpromise-channel-closed-by-replacement")
+				break
+			}
+		}
+	}
 }
 
 // slot is one thing that was put in the container: a promise (possibly nil) or a direct result.
@@ -392,6 +488,10 @@ func run(c *core.Ctx) {
 			id, nops := i+1, c.IntRange(1, 3)
 			tasks = append(tasks, c.Actor("csetter", func() { w.containerSetter(id, nops) }))
 		}
+		if c.S.PlanP(400) {
+			n := c.IntRange(1, 3)
+			tasks = append(tasks, c.Actor("peeker", func() { w.peeker(n) }))
+		}
 	} else {
 		w.p = promise.NewPromise[int]()
 		if c.S.PlanP(150) {
@@ -461,6 +561,9 @@ func run(c *core.Ctx) {
 		}
 		c.Stuck("no event to inject but tasks are not done: %s", c.S.StalledString())
 		return
+	}
+	if w.cont {
+		w.checkPeeks()
 	}
 	if !w.cont {
 		// every result an awaiter saw is the result of the one winning call
